@@ -471,6 +471,24 @@ func init() {
 					Probe:   `Match(Host="123.c.net")`, Observed: fmt.Sprintf("%s (Add panicked: %v)", got, bad), Expected: want + ": in a domain added after the registration {id:digit} is an interceptor parameter"})
 			}
 		}
+		// a plain parameter whose node was split by a second domain ({sub}.example. + com / org): the literal tail of the
+		// split node occurs twice in the host, and only the later occurrence leads to a registered domain
+		{
+			h := mux.NewHosts(false, "{sub}.example.com")
+			host, want := "a.example.x.example.com", `match=true params={sub="a.example.x"}`
+			first := probeHost(h, host).String()
+			_, bad := Guard(func() { h.Add("{sub}.example.org") })
+			second := probeHost(h, host).String()
+			_, bad2 := Guard(func() { h.Delete("{sub}.example.org") })
+			third := probeHost(h, host).String()
+			rc.Add("states", 3)
+			if bad || bad2 || first != want || second != want || third != want {
+				rc.Report(explore.Violation{Property: "C14", Clause: "C14.match", Class: "split-plain-parameter-first-occurrence-only",
+					History: []string{`NewHosts("{sub}.example.com")`, `Add("{sub}.example.org")`, `Delete("{sub}.example.org")`},
+					Probe:   fmt.Sprintf("Match(Host=%q) after each step", host), Observed: fmt.Sprintf("%s; %s; %s (panics: %v %v)", first, second, third, bad, bad2),
+					Expected: want + " all three times: {sub}.example.com is registered throughout and the other domain never matches this host"})
+			}
+		}
 		// several parameters with capitals in the literal text between them: every stretch outside braces is case-insensitive
 		for _, d := range []string{"{t}.API.{r}.Example.net", "{t}.Api.{r}.B.{s}.Net", "X.{t}.Y.{r}"} {
 			h := mux.NewHosts(false)
